@@ -545,7 +545,11 @@ def _process_child_attrs(cls, retval, kwargs):
             retval.__extends__ = retval.__extends__.customize(
                                                 child_attrs_all=child_attrs_all)
 
-        retval.Attributes._delayed_child_attrs_all = child_attrs_all
+        # what the class being customized holds for the members it will get
+        # later still holds for this one.
+        dcaa = dict(retval.Attributes._delayed_child_attrs_all or {})
+        dcaa.update(child_attrs_all)
+        retval.Attributes._delayed_child_attrs_all = dcaa
 
     if child_attrs is not None:
         ti = retval._type_info
@@ -565,7 +569,10 @@ def _process_child_attrs(cls, retval, kwargs):
         for k, v in child_attrs.items():
             if k not in base_fti:
                 logger.debug("  child_attr delayed %r=%r", k, v)
-                retval.Attributes._delayed_child_attrs[k] = v
+                # added to what the class being customized holds for it
+                dca = dict(retval.Attributes._delayed_child_attrs.get(k, {}))
+                dca.update(v)
+                retval.Attributes._delayed_child_attrs[k] = dca
 
 
 def recust_selfref(selfref, cls):
